@@ -94,6 +94,14 @@ type cfg struct {
 	MaxDelayMS int
 	FailP      float64
 	Cut        [][2]int
+	Script     []scriptEntry // per slot (slot mod len): scripted deliveries / Byzantine messages (from a WorkflowGen history)
+}
+
+// scriptEntry is the exchange's plan for the duties of one slot: how many copies of node from's message reach node to
+// (default 1), and what the Byzantine member sends to whom.
+type scriptEntry struct {
+	Deliver map[[2]int]int
+	Byz     [][2]string // [to, what]
 }
 
 func cfgOf(s drv.Step) cfg {
@@ -121,6 +129,30 @@ func cfgOf(s drv.Step) cfg {
 	if xs, ok := s["inject"].([]any); ok {
 		for _, x := range xs {
 			c.Inject = append(c.Inject, drv.Str(x))
+		}
+	}
+	if xs, ok := s["script"].([]any); ok {
+		for _, x := range xs {
+			m, ok := x.(map[string]any)
+			if !ok {
+				continue
+			}
+			e := scriptEntry{Deliver: map[[2]int]int{}}
+			if ds, ok := m["deliver"].([]any); ok {
+				for _, d := range ds {
+					if t, ok := d.([]any); ok && len(t) == 3 {
+						e.Deliver[[2]int{drv.Num(t[0]), drv.Num(t[1])}] = drv.Num(t[2])
+					}
+				}
+			}
+			if bs, ok := m["byz"].([]any); ok {
+				for _, b := range bs {
+					if t, ok := b.([]any); ok && len(t) == 2 {
+						e.Byz = append(e.Byz, [2]string{fmt.Sprint(drv.Num(t[0])), drv.Str(t[1])})
+					}
+				}
+			}
+			c.Script = append(c.Script, e)
 		}
 	}
 	if xs, ok := s["cut"].([]any); ok {
@@ -317,6 +349,7 @@ type run struct {
 	t        *testing.T
 	c        cfg
 	ctx      context.Context
+	bctx     context.Context // the harness's own beacon mock and every verification (outlives the cluster)
 	rec      *recorder
 	lock     cluster.Lock
 	shares   [][]tbls.PrivateKey // [validator][peer]
@@ -577,6 +610,11 @@ func (x *exchange) deliver(from, to int, duty core.Duty, set core.ParSignedDataS
 		if r.c.Dup > 0 && r.rnd() < r.c.Dup {
 			copies = 2
 		}
+		if e := r.script(duty); e != nil {
+			if k, ok := e.Deliver[[2]int{from, to}]; ok {
+				copies = k
+			}
+		}
 	}
 	for k := 0; k < copies; k++ {
 		delay := time.Duration(0)
@@ -596,7 +634,7 @@ func (x *exchange) deliver(from, to int, duty core.Duty, set core.ParSignedDataS
 			}
 			if r.c.ExVerify { // what parsigex.handle does: every entry, one failure drops the message
 				for pk, d := range c {
-					if err := r.verify(nctx, "", duty, pk, d); err != nil {
+					if err := r.verify(r.bctx, "", duty, pk, d); err != nil {
 						return
 					}
 				}
@@ -652,7 +690,7 @@ func (r *run) resign(sd core.SignedData, key tbls.PrivateKey) (core.SignedData, 
 	if !ok {
 		return nil, fmt.Errorf("not eth2 signed data")
 	}
-	epoch, err := e2.Epoch(r.ctx, r.bmock)
+	epoch, err := e2.Epoch(r.bctx, r.bmock)
 	if err != nil {
 		return nil, err
 	}
@@ -660,7 +698,7 @@ func (r *run) resign(sd core.SignedData, key tbls.PrivateKey) (core.SignedData, 
 	if err != nil {
 		return nil, err
 	}
-	sr, err := signing.GetDataRoot(r.ctx, r.bmock, e2.DomainName(), epoch, root)
+	sr, err := signing.GetDataRoot(r.bctx, r.bmock, e2.DomainName(), epoch, root)
 	if err != nil {
 		return nil, err
 	}
@@ -720,8 +758,59 @@ func (r *run) craft(kind string, duty core.Duty, set core.ParSignedDataSet) core
 	return out
 }
 
+func (r *run) script(duty core.Duty) *scriptEntry {
+	if len(r.c.Script) == 0 {
+		return nil
+	}
+
+	return &r.c.Script[int(duty.Slot%uint64(len(r.c.Script)))]
+}
+
+func (r *run) byzSendTo(to int, kind string, duty core.Duty, msg core.ParSignedDataSet) {
+	c, err := msg.Clone()
+	if err != nil {
+		return
+	}
+	r.rec.custom(r.c.Byz, "ByzSend", duty, c, drv.Step{"to": to, "what": kind})
+	if r.c.Mode == "mem" {
+		r.ex.deliver(r.c.Byz, to, duty, c, false)
+
+		return
+	}
+	r.hostsMu.Lock()
+	h := r.hosts[r.c.Byz]
+	r.hostsMu.Unlock()
+	if h == nil {
+		return
+	}
+	pb, err := core.ParSignedDataSetToProto(c)
+	if err != nil {
+		return
+	}
+	m := &pbv1.ParSigExMsg{Duty: core.DutyToProto(duty), DataSet: pb}
+	go func() {
+		ctx, cancel := context.WithTimeout(r.ctx, 2*time.Second)
+		defer cancel()
+		_ = p2p.Send(ctx, h, parsigexProto, r.peerIDs[to-1], m)
+	}()
+}
+
 // byzantine is called (outside the recorder's lock) when the Byzantine member's node hands a set to ParSigEx.Broadcast.
 func (r *run) byzantine(duty core.Duty, set core.ParSignedDataSet) {
+	if e := r.script(duty); e != nil {
+		for _, b := range e.Byz {
+			to := 0
+			fmt.Sscan(b[0], &to)
+			if to < 1 || to > r.c.N || to == r.c.Byz {
+				continue
+			}
+			if msg := r.craft(b[1], duty, set); len(msg) > 0 {
+				r.byzSendTo(to, b[1], duty, msg)
+			}
+		}
+
+		return
+	}
 	if len(r.c.Inject) == 0 || r.rnd() >= r.c.InjectP {
 		return
 	}
@@ -734,29 +823,7 @@ func (r *run) byzantine(duty core.Duty, set core.ParSignedDataSet) {
 		if to == r.c.Byz || (kind == "equiv" && to%2 == 0) || (kind != "equiv" && r.rnd() < 0.3) {
 			continue
 		}
-		c, _ := msg.Clone()
-		r.rec.custom(r.c.Byz, "ByzSend", duty, c, drv.Step{"to": to, "what": kind})
-		if r.c.Mode == "mem" {
-			r.ex.deliver(r.c.Byz, to, duty, c, false)
-
-			continue
-		}
-		r.hostsMu.Lock()
-		h := r.hosts[r.c.Byz]
-		r.hostsMu.Unlock()
-		if h == nil {
-			continue
-		}
-		pb, err := core.ParSignedDataSetToProto(c)
-		if err != nil {
-			continue
-		}
-		m := &pbv1.ParSigExMsg{Duty: core.DutyToProto(duty), DataSet: pb}
-		go func(to int) {
-			ctx, cancel := context.WithTimeout(r.ctx, 2*time.Second)
-			defer cancel()
-			_ = p2p.Send(ctx, h, parsigexProto, r.peerIDs[to-1], m)
-		}(to)
+		r.byzSendTo(to, kind, duty, msg)
 	}
 }
 
@@ -979,7 +1046,7 @@ func (r *run) verifies(d core.SignedData, pub tbls.PublicKey) bool {
 	if hit {
 		return v
 	}
-	v = core.VerifyEth2SignedData(r.ctx, r.bmock, e2, pub) == nil
+	v = core.VerifyEth2SignedData(r.bctx, r.bmock, e2, pub) == nil
 	r.okMu.Lock()
 	r.okCache[key] = v
 	r.okMu.Unlock()
@@ -987,14 +1054,23 @@ func (r *run) verifies(d core.SignedData, pub tbls.PublicKey) bool {
 	return v
 }
 
-func (r *run) part(pk core.PubKey, p core.ParSignedData) drv.Step {
+func subIdx(typ core.DutyType, d core.SignedData) int {
+	k, err := core.SyncSubcommitteeIndex(typ, d)
+	if err != nil {
+		return -1
+	}
+
+	return int(k)
+}
+
+func (r *run) part(typ core.DutyType, pk core.PubKey, p core.ParSignedData) drv.Step {
 	mr, u := signedRoots(p.SignedData)
 	ok := false
 	if pub, have := r.pubs[pk][p.ShareIdx]; have {
 		ok = r.verifies(p.SignedData, pub)
 	}
 
-	return drv.Step{"v": r.vidx[pk], "sh": p.ShareIdx, "r": mr, "u": u, "ok": ok}
+	return drv.Step{"v": r.vidx[pk], "k": subIdx(typ, p.SignedData), "sh": p.ShareIdx, "r": mr, "u": u, "ok": ok}
 }
 
 func sortSteps(xs []any) []any {
@@ -1028,14 +1104,14 @@ func (r *run) argFields(e rawEv, out drv.Step) {
 	case core.ParSignedDataSet:
 		parts := []any{}
 		for pk, p := range a {
-			parts = append(parts, r.part(pk, p))
+			parts = append(parts, r.part(e.duty.Type, pk, p))
 		}
 		out["parts"] = sortSteps(parts)
 	case map[core.PubKey][]core.ParSignedData:
 		parts := []any{}
 		for pk, ps := range a {
 			for _, p := range ps {
-				parts = append(parts, r.part(pk, p))
+				parts = append(parts, r.part(e.duty.Type, pk, p))
 			}
 		}
 		out["parts"] = sortSteps(parts)
@@ -1043,7 +1119,7 @@ func (r *run) argFields(e rawEv, out drv.Step) {
 		set := []any{}
 		for pk, d := range a {
 			mr, u := signedRoots(d)
-			set = append(set, drv.Step{"v": r.vidx[pk], "r": mr, "u": u, "ok": r.verifies(d, r.group[pk])})
+			set = append(set, drv.Step{"v": r.vidx[pk], "k": subIdx(e.duty.Type, d), "r": mr, "u": u, "ok": r.verifies(d, r.group[pk])})
 		}
 		out["set"] = sortSteps(set)
 	case core.VerifQuery:
@@ -1094,7 +1170,7 @@ func (r *run) events() []drv.Step {
 	r.rec.mu.Unlock()
 	var out []drv.Step
 	for _, e := range evs {
-		s := drv.Step{"n": e.node, "d": dutyStr(e.duty)}
+		s := drv.Step{"n": e.node, "d": dutyStr(e.duty), "ty": e.duty.Type.String()}
 		for k, v := range e.step {
 			s[k] = v
 		}
@@ -1120,8 +1196,9 @@ func (r *run) events() []drv.Step {
 			}
 		} else {
 			s["ev"] = e.edge
-			if e.edge == "Stop" || e.edge == "Start" {
+			if e.duty.Type == core.DutyUnknown {
 				delete(s, "d")
+				delete(s, "ty")
 			}
 			if e.arg != nil {
 				r.argFields(e, s)
@@ -1138,7 +1215,7 @@ func runCluster(t *testing.T, sid int, c cfg) []drv.Step {
 	ctx, cancel := context.WithCancel(context.Background())
 	defer cancel()
 	random := rand.New(rand.NewSource(c.Seed))
-	lock, p2pKeys, shares := cluster.NewForT(t, c.NV, c.T, c.N, int(c.Seed%1000)+1, random, func(d *cluster.Definition) {
+	lock, p2pKeys, shares := cluster.NewForT(t, c.NV, c.T, c.N, int(c.Seed%200)+1, random, func(d *cluster.Definition) {
 		d.ForkVersion = []byte{0x90, 0x00, 0x00, 0x69}
 	})
 	r := &run{t: t, c: c, ctx: ctx, lock: lock, shares: shares, vidx: map[core.PubKey]int{}, group: map[core.PubKey]tbls.PublicKey{},
@@ -1173,7 +1250,10 @@ func runCluster(t *testing.T, sid int, c cfg) []drv.Step {
 	if r.genesis, err = eth2util.ForkVersionToGenesisTime(lock.ForkVersion); err != nil {
 		t.Fatal(err)
 	}
-	if r.bmock, err = beaconmock.New(ctx, beaconmock.WithSlotDuration(r.slotDur), beaconmock.WithGenesisTime(r.genesis),
+	bctx, bcancel := context.WithCancel(context.Background())
+	defer bcancel()
+	r.bctx = bctx
+	if r.bmock, err = beaconmock.New(bctx, beaconmock.WithSlotDuration(r.slotDur), beaconmock.WithGenesisTime(r.genesis),
 		beaconmock.WithSlotsPerEpoch(c.SPE)); err != nil {
 		t.Fatal(err)
 	}
